@@ -91,15 +91,18 @@ Proof. vm_compute. reflexivity. Qed.
 (* [keys_distinct] is needed: two unnamed text fields, filled with their own export, both get the first value *)
 Example C37_unnamed_fields_refuted :
   let fs := [PTx s1 [] false false 0 None (Some sa) None; PTx s2 [] false false 0 None (Some sb) None] in
-  exists j fs', export_form nodate fs = Ok j /\ fill_form nodate j fs = Ok (true, fs') /\ export_form nodate fs' <> Ok j.
-Proof. eexists; eexists. vm_compute. repeat split. discriminate. Qed.
+  let j := [JTx s1 [] [] sa 0 false false; JTx s2 [] [] sb 0 false false] in
+  let fs' := [PTx s1 [] false false 0 None (Some sa) None; PTx s2 [] false false 0 None (Some sa) None] in
+  export_form nodate fs = Ok j /\ fill_form nodate j fs = Ok (true, fs') /\ export_form nodate fs' <> Ok j.
+Proof. vm_compute. repeat split. discriminate. Qed.
 
 (* deselecting a radio group that has an explicit /Opt array stores an empty name: the next export fails *)
 Example C37_radio_deselect_export_fails_refuted :
   let f := PRb s1 sa false [sa; sb] [Some [48%N]; Some [49%N]] (Some [48%N]) None in
-  exists f', fill_field nodate [JRb s1 sa [sa; sb] [] [] false] f = Ok (true, f') /\ export_field nodate f' = Err
-             /\ export_field nodate f = Ok (JRb s1 sa [sa; sb] [] sa false).
-Proof. eexists. vm_compute. repeat split. Qed.
+  let f' := PRb s1 sa false [sa; sb] [Some [48%N]; Some [49%N]] (Some []) None in
+  fill_field nodate [JRb s1 sa [sa; sb] [] [] false] f = Ok (true, f') /\ export_field nodate f' = Err
+  /\ export_field nodate f = Ok (JRb s1 sa [sa; sb] [] sa false).
+Proof. vm_compute. repeat split. Qed.
 
 (* a radio group with an explicit /Opt array and /V /Off cannot be exported at all *)
 Example C37_radio_explicit_off_export_fails_refuted :
@@ -114,9 +117,10 @@ Proof. vm_compute. reflexivity. Qed.
 (* a text value that parses as a date turns the field into a date field on the next export (value kept) *)
 Example C37_text_becomes_date :
   let isdate := fun s : str => if str_eqb s sb then Some sa else None in
-  exists f', fill_field isdate [JTx s1 sa [] sb 0 false false] (PTx s1 sa false false 0 None (Some sa) None) = Ok (true, f')
-             /\ export_field isdate f' = Ok (JDt s1 sa sa [] sb false).
-Proof. eexists. vm_compute. split; reflexivity. Qed.
+  let f' := PTx s1 sa false false 0 None (Some sb) None in
+  fill_field isdate [JTx s1 sa [] sb 0 false false] (PTx s1 sa false false 0 None (Some sa) None) = Ok (true, f')
+  /\ export_field isdate f' = Ok (JDt s1 sa sa [] sb false).
+Proof. vm_compute. split; reflexivity. Qed.
 
 (* ---- non-vacuity: a form with every field type satisfying the hypotheses of theorems 1 and 2 ---- *)
 Definition ex_form : list pfield :=
@@ -130,18 +134,23 @@ Definition ex_form : list pfield :=
     PLb [56%N] [109%N] true false [sa; sb] (LStr sa) LNone ].
 
 Example C37_nonvacuous_1 :
-  keys_distinct ex_form /\ forallb clean ex_form = true /\ exists j, export_form nodate ex_form = Ok j.
+  keys_distinct ex_form /\ forallb clean ex_form = true /\ export_form nodate ex_form <> Err.
 Proof.
-  split; [|split; [vm_compute; reflexivity|eexists; vm_compute; reflexivity]].
+  split; [|split; [vm_compute; reflexivity|vm_compute; discriminate]].
   simpl. repeat split; repeat constructor; simpl; discriminate.
 Qed.
 
 (* the exported JSON itself satisfies the precondition of theorem 2 for this form *)
-Example C37_nonvacuous_2 : exists c fs' es,
-  fill_form nodate
+Example C37_nonvacuous_2 :
+  match fill_form nodate
     [JTx [49%N] [116%N] [] sb 10 true false; JDt [50%N] [100%N] [] [] s1 true; JCb [51%N] [99%N] false false true;
      JRb [52%N] [114%N] [] [] sa false; JRb [53%N] [120%N] [] [] sa false; JCo [54%N] [111%N] false [] [] sa true;
-     JLb [55%N] [108%N] true [] [] [sa] false; JLb [56%N] [109%N] false [] [] [sb] true] ex_form = Ok (c, fs')
-  /\ export_form nodate fs' = Ok es
-  /\ map jvalue es = [VStr sb; VStr s1; VBool false; VStr sa; VStr sa; VStr sa; VList [sa]; VList [sa]].
-Proof. eexists; eexists; eexists. vm_compute. repeat split. Qed.
+     JLb [55%N] [108%N] true [] [] [sa] false; JLb [56%N] [109%N] false [] [] [sb] true] ex_form with
+  | Ok (c, fs') =>
+    match export_form nodate fs' with
+    | Ok es => map jvalue es = [VStr sb; VStr s1; VBool false; VStr sa; VStr sa; VStr sa; VList [sa]; VList [sa]]
+    | Err => False
+    end
+  | Err => False
+  end.
+Proof. vm_compute. reflexivity. Qed.
